@@ -1,5 +1,6 @@
 import CstModel.Props.C20
 import CstModel.Props.GenBuilder2
+import CstModel.Props.GenBuilder3
 import CstModel.Props.GenIntern
 open Cst.C20
 #print axioms fail_no_change
@@ -12,3 +13,5 @@ open Cst.C20
 #print axioms Cst.Gen.i_get_or_intern
 #print axioms Cst.Gen.i_get_or_intern_arg
 #print axioms Cst.Gen.i_fwd
+#print axioms Cst.Gen.b_token_model
+#print axioms Cst.Gen.b_static_token_model
